@@ -27,6 +27,7 @@ from typing import (
 import lupa.lua51 as lupa
 from lupa.lua51 import lua_type
 
+from .common import is_numbered_arg_name
 from .interwiki import mw_site_interwikiMap
 from .parserfns import (
     PARSER_FUNCTIONS,
@@ -454,7 +455,7 @@ def call_lua_sandbox(
                 if m is not None:
                     # named parameter
                     k, arg = m.groups()
-                    if k.isascii() and k.isdigit() and int(k) > 0:
+                    if is_numbered_arg_name(k):
                         # Greek wiktionary uses '0', '00' and '000' as
                         # parameter names...
                         k = int(k)
